@@ -124,7 +124,9 @@ def stat_val(rng):
 
 
 def memstat_file(rng, pgscan=None):
-    keys = [k for k in STAT_KEYS if rng.random() < 0.8 or k == "pgscan"]
+    keys = [k for k in STAT_KEYS if rng.random() < (0.93 if k == "pgscan" else 0.8)]   # old kernels: no pgscan
+    if not keys:
+        keys = ["anon"]
     rng.shuffle(keys)
     lines = []
     for k in keys:
@@ -208,6 +210,8 @@ def cg_files(rng):
         f["memory.low"] = "0\n"
     if rng.random() < 0.5:
         f["memory.min"] = "0\n"
+    if rng.random() < 0.03:
+        f[rng.choice(["memory.current", "memory.swap.current", "memory.low", "memory.stat", "io.stat", "cgroup.events"])] = ""   # empty file
     for k in list(f):
         if k != "cgroup.controllers" and rng.random() < 0.04:
             del f[k]
@@ -249,6 +253,8 @@ def proc_vmstat(rng, pswpout):
     keys = [("nr_free_pages", rng.randrange(2 ** 30)), ("pswpin", rng.randrange(2 ** 40)), ("pswpout", pswpout),
             ("pgscan_kswapd", rng.randrange(2 ** 40))]
     rng.shuffle(keys)
+    if rng.random() < 0.07:
+        keys = [kv for kv in keys if kv[0] != "pswpout"]      # no swap accounting
     return "".join("%s %d\n" % kv for kv in keys)
 
 
@@ -508,7 +514,7 @@ def crash_scenarios():
 
 
 def gen(rng, tier):
-    n = {"quick": 2600, "thorough": 90000, "search": 9000}[tier]
+    n = {"quick": 2000, "thorough": 60000, "search": 9000}[tier]
     if tier != "search":
         for s in crash_scenarios():
             yield s
@@ -588,5 +594,9 @@ def extra_coverage(results):
     temporal = sum(v.get("temporal_checked", 0) for _, _, v in results)
     calls = sum(len(o.get("f", [])) for s, _, _ in results for tk in s["ticks"] for o in tk["ops"] if o["op"] == "get")
     crash = sum(1 for _, _, v in results if v.get("model_crash"))
+    rfc = sum(v.get("rat_float_compared", 0) for _, _, v in results)
+    rfd = sum(v.get("rat_float_differ", 0) for _, _, v in results)
     return {"accessor_calls_compared_with_model": calls, "values_checked_against_reference": checked,
-            "temporal_values_checked_against_reference": temporal, "crash_point_scenarios": crash}
+            "temporal_values_checked_against_reference": temporal, "crash_point_scenarios": crash,
+            "rat_vs_float": {"integer_results_compared": rfc, "exact_arithmetic_differs": rfd,
+                             "note": "memory_protection / average_usage / effective_usage: the model run with Rat against the run with Float (= the C++ doubles)"}}
